@@ -259,6 +259,25 @@ func c13RawInputs(rng *rand.Rand, n int) []hostileInput {
 	add("inline-quote", "SET a \"b c\r\n")
 	add("garbage-64k", strings.Repeat("\xde\xad\xbe\xef", 16384))
 	add("garbage-crlf", strings.Repeat("zz\r\n", 2000))
+	// RESP3 streamed strings and aggregates: "$?" / "*?" ... followed by ";<len>" chunks or elements and a terminator
+	for _, b := range append(append([]string{}, bigs...), "3", "5", "-3") {
+		add("stream-chunk-len", "*2\r\n$4\r\nECHO\r\n$?\r\n;"+b+"\r\n")
+		add("stream-chunk-len", "*2\r\n$4\r\nECHO\r\n$?\r\n;"+b+"\r\nabc\r\n;0\r\n")
+		add("stream-chunk-len", "$?\r\n;"+b+"\r\n")
+		add("stream-chunk-len", "*2\r\n$4\r\nECHO\r\n!?\r\n;"+b+"\r\n")
+		add("stream-chunk-len", "*2\r\n$4\r\nECHO\r\n=?\r\n;"+b+"\r\n")
+		add("stream-chunk-len", "*2\r\n$4\r\nECHO\r\n$?\r\n;3\r\nabc\r\n;"+b+"\r\n")
+	}
+	for _, agg := range []string{"*?", "~?", "%?", ">?", "|?"} {
+		add("stream-aggregate", agg+"\r\n$4\r\nPING\r\n.\r\n")
+		add("stream-aggregate", agg+"\r\n.\r\n")
+		add("stream-aggregate", agg+"\r\n"+agg+"\r\n.\r\n.\r\n")
+		add("stream-aggregate", "*2\r\n$4\r\nECHO\r\n"+agg+"\r\n$1\r\na\r\n.\r\n")
+		add("stream-aggregate", agg+"\r\n$4\r\nPING\r\n")
+		add("stream-aggregate", agg+"\r\n;3\r\nabc\r\n")
+	}
+	add("stream-terminator-alone", ".\r\n")
+	add("stream-chunk-alone", ";3\r\nabc\r\n")
 	for _, t := range []string{"*", "$", "~", "%", "|", ">", "=", "!", "(", ",", "#", "_", ":", "+", "-"} {
 		add("type-alone-"+t, t+"\r\n")
 		add("type-noline-"+t, t)
